@@ -595,6 +595,8 @@ class FitResult:
         self.scale_problems: List[str] = []
         self.mutated: List[str] = []
         self.upstream_mutated = False
+        self.upstream_max = 0.0
+        self.input_max = 1.0
         self.out_u = None
         self.out_r = None
         self.u_exc: Optional[BaseException] = None
@@ -679,6 +681,8 @@ def run_fit(op: Op, U, cfg: Dict[str, Any], constraint: Any, dtype: torch.dtype,
             elif layout in ("up-noncontig", "all-noncontig"):
                 g = relayout(g, "noncontig")
             g_before = g.clone()
+            fr.upstream_max = float(g.abs().max()) if g.numel() else 0.0
+            fr.input_max = max([float(t.detach().abs().max()) for t in au.values() if isinstance(t, torch.Tensor) and t.is_floating_point() and t.numel()] + [1.0])
             yu.backward(g)
             fr.upstream_mutated = not bool(torch.equal(torch.nan_to_num(g), torch.nan_to_num(g_before)))
             torch.manual_seed(rng_seed)
